@@ -67,8 +67,9 @@ NOT_APPLICABLE.pop('C13', None)
 CLAIMED['C15'] = (
     'symbolic execution of Trajectory slicing/filter/split/extend and read-only queries on real-valued symbolic coordinates over enumerated call sequences; z3 per-entry obligations with recorded cuts',
     'Every call sequence up to the bounded length is executed on a trajectory whose coordinates are symbolic reals (both internal representations); after every call, '
-    'the source and every derived trajectory are proved (z3 unsat, per entry) to hold exactly the expected frames/atoms of the wrapped input, before and after displacement-type queries.',
-    'Call sequences and shapes are enumerated bounds; floats read as reals; half-cell ties excluded; after each proof the stored coordinates are replaced by the proved closed form (cut) so terms stay shallow; z3.',
+    'the source and every derived trajectory are proved (z3 unsat, per entry) to hold the expected frames/atoms of the input modulo 1, and every later .positions answer of an object is proved '
+    'identical to its earlier answer (before and after displacement-type queries); also for positions-mode sources whose stored coordinates are still unwrapped.',
+    'Call sequences and shapes are enumerated bounds; floats read as reals; half-cell ties excluded; after each proof the stored coordinates are replaced by the proved closed form (cut) where they provably equal it, so terms stay shallow; z3.',
     'DESIGN.md §3 C15')
 NOT_APPLICABLE.pop('C15', None)
 CLAIMED['C06'] = (
